@@ -170,6 +170,37 @@ func TestC15(t *testing.T) {
 				})
 				drainCheck(t, n0, map[uint32]bool{}, "read-only transaction")
 			},
+			"writeThenDrop": func(t *rapid.T) {
+				// the only writes of a transaction go to a column that no longer exists when it commits:
+				// nothing is applied, so nothing may be emitted
+				var cands []int
+				for i, cs := range sch.Cols {
+					if i != 0 && mc.M.ColLive[i] && cs.Kind != KKey {
+						cands = append(cands, i)
+					}
+				}
+				if len(cands) < 2 || len(mc.M.Rows) == 0 {
+					t.Skip("needs two value columns and a row")
+				}
+				ci := cands[rapid.IntRange(0, len(cands)-1).Draw(t, "col")]
+				row, _ := pickLive(t, mc.M, mc.Recent, "row")
+				val := genValue(t, sch.Cols[ci], "val")
+				n0 := log.Len()
+				mc.logf("txn[update@%d{%s}; DropColumn(%s)] commit", row, sch.renderStores([]Store{{Col: ci, Val: val}}), sch.Cols[ci].Name)
+				mc.C.Query(func(txn *column.Txn) error {
+					txn.QueryAt(row, func(r column.Row) error { writeStore(txn, r, sch.Cols[ci], Store{Col: ci, Val: val}); return nil })
+					mc.C.DropColumn(sch.Cols[ci].Name)
+					return nil
+				})
+				mc.M.ColLive[ci] = false
+				for _, r := range mc.M.Rows {
+					r[ci] = Cell{}
+				}
+				mc.M.dirty()
+				relay.DropColumn(sch.Cols[ci].Name)
+				mc.flag("write-to-a-column-dropped-before-commit")
+				drainCheck(t, n0, map[uint32]bool{}, "transaction whose only write went to a column that was dropped before it committed")
+			},
 			"readArchive": func(t *rapid.T) {
 				// somebody reads an archive of OLDER commits in this process (Log.Append / Log.Range): the
 				// IDs of the commits emitted afterwards must still be fresh
@@ -360,5 +391,44 @@ func TestC15Vacuum(t *testing.T) {
 			t.Fatalf("C15 violated: after replaying the whole stream (incl. the cleanup's commits) the follower holds %d rows (Count %d), the primary %d (Count %d)", len(f), follower.Count(), len(p), c.Count())
 		}
 		RecordCase("C15", fmt.Sprintf("vacuum: %d TTL rows, two blocks=%v, interval %s, %d commits", k, twoBlocks, interval, log.Len()), true, "cleanup-commits-in-the-stream")
+	})
+}
+
+// TestC15ManyCommits: several blocks are opened by ONE bulk transaction, then many small
+// transactions commit into them. Whatever the scheme IDs are drawn by, every emitted commit must
+// carry an ID of its own (and a block's IDs must grow) - also after hundreds of commits into the
+// older of two blocks that came into being at the same instant.
+func TestC15ManyCommits(t *testing.T) {
+	rapid.Check(t, func(t *rapid.T) {
+		blocks := rapid.IntRange(2, 3).Draw(t, "blocks")
+		commits := rapid.IntRange(600, 3000).Draw(t, "commits")
+		log := &recLogger{}
+		c := column.NewCollection(column.Options{Vacuum: 24 * 3600 * 1e9, Writer: log})
+		defer c.Close()
+		c.CreateColumn("n", column.ForInt())
+		c.Query(func(txn *column.Txn) error {
+			for i := 0; i < (blocks-1)*16384+64; i++ {
+				txn.Insert(func(r column.Row) error { r.SetInt("n", i); return nil })
+			}
+			return nil
+		})
+		busy := uint32(rapid.IntRange(0, blocks-1).Draw(t, "busy-block")) << 14
+		for i := 0; i < commits; i++ {
+			row := busy + uint32(i%50)
+			if i%97 == 0 {
+				row = uint32(i%blocks)<<14 + 7
+			}
+			c.QueryAt(row, func(r column.Row) error { r.SetInt("n", i); return nil })
+		}
+		sc := newStreamChecker()
+		for _, rc := range log.Since(0) {
+			if err := sc.add(rc); err != nil {
+				t.Fatalf("C15 violated (%d blocks opened by one transaction, then %d commits, most of them into block %d): %v", blocks, commits, busy>>14, err)
+			}
+		}
+		if log.Len() != blocks+commits {
+			t.Fatalf("C15 violated: %d commits emitted for a bulk load into %d blocks and %d single-row transactions", log.Len(), blocks, commits)
+		}
+		RecordCase("C15", fmt.Sprintf("many commits: %d blocks opened at once, %d commits, busy block %d", blocks, commits, busy>>14), true, "hundreds-of-commits-after-a-multi-block-load")
 	})
 }
